@@ -14,6 +14,7 @@ import (
 	"mellium.im/xmpp/stanza"
 
 	"mellium.im/xmpp/verifharness/core"
+	"mellium.im/xmpp/verifharness/sess"
 	"mellium.im/xmpp/verifharness/xmltree"
 )
 
@@ -25,6 +26,7 @@ type step struct {
 	// A reply to an application call may be delivered in pieces cut at these byte
 	// offsets, with the call's context cancelled before piece CancelAt
 	// (len(pieces) = after the last one, -1 = never).
+	NoWait   bool   `json:"no_wait,omitempty"` // Serve is expected to wait for the application in this stanza
 	Cuts     []int  `json:"cuts,omitempty"`
 	Cancel   string `json:"cancel,omitempty"`
 	CancelAt int    `json:"cancel_at,omitempty"`
@@ -53,9 +55,10 @@ type script struct {
 
 // piece is a canonical element of a rule: a stanza tree or an app action.
 type piece struct {
-	n   *node
-	act string // "act:<name>" / "await:<name>"
-	raw string // literal bytes (stream-level material)
+	nowait bool // the peer does not wait for this stanza to be dealt with (Serve is meant to wait for the application)
+	n      *node
+	act    string // "act:<name>" / "await:<name>"
+	raw    string // literal bytes (stream-level material)
 }
 
 type rule struct {
@@ -221,7 +224,11 @@ var rules = []rule{
 			ps = append(ps, st(other))
 		}
 		if r.Intn(5) == 0 {
-			ep := pres("error", roomMe, el("x", nsMUC), stanzaErr("auth", "not-authorized", "password required"))
+			errEl := stanzaErr("auth", "not-authorized", "password required")
+			if r.Intn(2) == 0 {
+				errEl, _ = richErr(r)
+			}
+			ep := pres("error", roomMe, el("x", nsMUC), errEl)
 			ep.set("id", "j1")
 			ps = append(ps, st(ep), await("muc.join"))
 			return ps
@@ -297,6 +304,19 @@ var rules = []rule{
 		}
 		ps = append(ps, st(iq("set", "lc4", el("close", nsIBB, "sid", sid))))
 		ps = append(ps, st(ibbData("set", "lc5", sid, next+2, "QUJD"))) // data for the closed stream
+		return ps
+	}},
+	{"ibb-unaccepted-open", func(r *rand.Rand) []piece {
+		// a listener (for a second address of the application) that nobody
+		// accepts from: the peer opens a stream to it, the handler waits for the
+		// application, the application closes the listener instead
+		open := st(iq("set", "u1", el("open", nsIBB, "block-size", "4096", "sid", "su", "stanza", pick(r, "iq", "message"))).set("to", otherJID))
+		open.nowait = true
+		ps := []piece{act("ibb.listen2"), open, act("ibb.listener2.close"), await("ibb.listener2.close")}
+		ps = append(ps, st(ibbData("set", "u2", "su", 0, "QUJD").set("to", otherJID)))
+		if r.Intn(2) == 0 {
+			ps = append(ps, st(iq("set", "u3", el("close", nsIBB, "sid", "su")).set("to", otherJID)))
+		}
 		return ps
 	}},
 	{"stream-level", func(r *rand.Rand) []piece {
@@ -399,7 +419,7 @@ func genScript(r *rand.Rand, i int) *script {
 					sc.Muts = append(sc.Muts, "bytes-"+kind)
 				}
 			}
-			sc.Steps = append(sc.Steps, step{K: "send", Raw: raw})
+			sc.Steps = append(sc.Steps, step{K: "send", Raw: raw, NoWait: p.nowait})
 		case p.raw != "":
 			sc.Steps = append(sc.Steps, step{K: "send", Raw: p.raw})
 		case strings.HasPrefix(p.act, "act:"):
@@ -580,6 +600,35 @@ func (e *env) runAct(name string) *action {
 		})
 		a.detached = true
 		return a
+	}
+	switch name {
+	case "ibb.listen2":
+		// a listener for a second address served by the same handler; nobody
+		// ever accepts from it
+		if e.lst2 != nil {
+			return nil
+		}
+		e.c.Guard(name, func() {
+			p2, err := sess.NewPair(sess.Opts{Local: otherJID})
+			if err != nil {
+				return
+			}
+			e.p2 = p2
+			e.lst2 = e.ibbH.Listen(p2.S)
+			e.c.Count("ibb_second_listener", 1)
+		})
+		return nil
+	case "ibb.listener2.close":
+		if e.lst2 == nil || e.lst2Closing {
+			return nil
+		}
+		e.lst2Closing = true
+		l := e.lst2
+		return e.start(name, "", func(ctx context.Context) (bool, error) {
+			err := l.Close()
+			e.note("ibb_listener2_closed")
+			return err == nil, err
+		})
 	}
 	if strings.HasPrefix(name, "ibb.closefail/") {
 		f := strings.Split(name, "/")
@@ -810,6 +859,17 @@ func runScript(c *core.Case, sc *script) {
 				} else {
 					e.peerWrite(s.Raw + fmt.Sprintf(sentinelPing, sid))
 				}
+				if s.NoWait {
+					// Serve may legitimately sit in the handler until the application
+					// acts (next step): only give it the time to get there
+					for i := 0; i < 1500 && !e.answered(sid) && !e.served() && e.p.Lib.BlockedReads() > 0; i++ {
+						time.Sleep(200 * time.Microsecond)
+					}
+					if !e.answered(sid) && !e.served() && e.p.Lib.BlockedReads() == 0 {
+						c.Count("stanza_left_waiting_for_the_application", 1)
+					}
+					continue
+				}
 				// what does an independent parser make of the input so far?
 				st := xmltree.ParseStream(e.input(), true)
 				switch {
@@ -914,7 +974,7 @@ func (e *env) report(sc *script) {
 		{"carbons", "h_carbons"}, {"caps", "h_caps"}, {"muc_invite", "h_muc_invite"}, {"muc_direct_invite", "h_muc_direct_invite"},
 		{"muc_user_presence", "h_muc_presence"}, {"muc_joined", "h_muc_join"}, {"history_inner", "h_history_inner"}, {"history_tracked", "h_history_tracked"},
 		{"receipts_unhandled", "h_receipts_received"}, {"ibb_bytes", "h_ibb_bytes"},
-		{"ibb_local_close_failed", "ibb_local_close_failed"}, {"ibb_local_close_ok", "ibb_local_close_ok"}} {
+		{"ibb_listener2_closed", "ibb_unaccepting_listener_closed"}, {"ibb_local_close_failed", "ibb_local_close_failed"}, {"ibb_local_close_ok", "ibb_local_close_ok"}} {
 		if e.obs[kv[0]] > 0 {
 			c.Count(kv[1], e.obs[kv[0]])
 		}
